@@ -20,6 +20,8 @@ Events (text form, ` ; `-separated in corpus / replay files):
     Z i          cancel the future handler i (kind W) is awaiting: its task ends with CancelledError
     WC i fa      handler waits for its gate (F i), then calls session.close(force_after=fa)
     OM k n       n tasks k .. k+n-1 call send_request at the same moment
+    WM i n       n requests i .. i+n-1 with waiting handlers arrive in one chunk (more than the
+                 incoming limiter admits at once)
     XC c         cancel application task c while it is inside close()
     O k          task: send_request        OB k  task: batch of 2 requests + 1 notification
     ON k         task: send_notification / send_message
@@ -321,6 +323,10 @@ class World:
                 self._feed_request(k, ev[1], ev[2] if len(ev) > 2 else None)
         elif k in ('NW', 'NQ'):
             self._feed_request(k[1], ev[1], notification=True)
+        elif k == 'WM':
+            for j in range(ev[2]):
+                if ev[1] + j not in self.handlers:
+                    self._feed_request('W', ev[1] + j)
         elif k == 'BT':
             self.fed_at.setdefault(ev[1], self.now)
             self.fed_at.setdefault(ev[2], self.now)
